@@ -292,20 +292,118 @@ async fn settle(h: &mut tokio::task::JoinHandle<u16>, ms: u64) -> String {
     }
 }
 
-/// c12-statelock <hammer-ms> <seed>
-///
 /// One BMP connection through the real `RouterHandler` (StreamFixture over an in-memory pipe) with the
 /// unit's router list and the router's info endpoint built over the SAME state machine mutex and
-/// registered in a `Resources`; requests go through the real `Server::handle_request`, each in a task
-/// of its own on a multi-thread runtime.
-///  probe : the schedule of C12_statelock_release_refuted, replayed. The downstream end of the gate
-///          applies back-pressure, so the connection task sits inside process_msg (in
-///          `gate.update_data(..).await`); now the info page and the router list are requested. On
-///          the code as it is they wait for the lock; when the back-pressure ends both are served.
-///  hammer: for <hammer-ms> the router sends messages back to back while clients request the list and
-///          the info page (by ingress id, by address); every request must get its 200.
+/// registered in the `Resources` of a `Manager`; requests go through the real
+/// `Server::handle_request`, each in a task of its own (multi-thread runtime).
+struct Scenario {
+    fx: Arc<rotonda::verif::bmp_stream::StreamFixture>,
+    resources: Resources,
+    metrics: Arc<rotonda::metrics::Collection>,
+    tx: Option<tokio::io::DuplexStream>,
+    conn: Option<tokio::task::JoinHandle<()>>,
+    info_path: String,
+    _manager: rotonda::manager::Manager,
+    _held: Vec<Arc<dyn ProcessRequest>>,
+}
+
+impl Scenario {
+    async fn new() -> Result<Self, String> {
+        use std::time::{Duration, Instant};
+        use tokio::io::AsyncWriteExt;
+        let render = crate::engines::bstream::render;
+        let fx = Arc::new(rotonda::verif::bmp_stream::StreamFixture::new("198.51.100.1:11019".parse().unwrap()).await);
+        let manager = rotonda::manager::Manager::new();
+        let resources: Resources = manager.http_resources();
+        let (list, info) = fx.http_processors(resources.clone(), "/routers/");
+        resources.register(Arc::downgrade(&list), "verif".into(), "bmp-tcp-in", "/routers/", false);
+        resources.register(Arc::downgrade(&info), "verif".into(), "bmp-tcp-in", "/routers/", true);
+        let (mut tx, rx) = tokio::io::duplex(1 << 16);
+        let conn = { let fx = fx.clone(); tokio::spawn(async move { fx.run(rx).await }) };
+        // Initiation + Peer Up: the router is dumping
+        tx.write_all(&render("I")).await.unwrap();
+        tx.write_all(&render("U.0.1")).await.unwrap();
+        let t0 = Instant::now();
+        while fx.phase().await != 1 {
+            if t0.elapsed() > Duration::from_secs(3) { return Err("broken the router did not reach the dumping phase".into()); }
+            tokio::time::sleep(Duration::from_millis(1)).await;
+        }
+        let info_path = format!("/routers/{}", fx.router_id);
+        Ok(Self { fx, resources, metrics: Arc::new(Default::default()), tx: Some(tx), conn: Some(conn), info_path, _manager: manager, _held: vec![list, info] })
+    }
+
+    fn get(&self, path: String) -> tokio::task::JoinHandle<u16> {
+        let (resources, metrics) = (self.resources.clone(), self.metrics.clone());
+        tokio::spawn(async move {
+            let req = Request::builder().method("GET").uri(path).body(Body::empty()).unwrap();
+            let res = Server::verif_handle_request(req, &metrics, &resources).await;
+            let status = res.status().as_u16();
+            let _ = hyper::body::to_bytes(res.into_body()).await;
+            status
+        })
+    }
+
+    fn path_of(&self, kind: &str) -> String {
+        match kind { "I" => self.info_path.clone(), "L" => "/routers/".to_string(), k => panic!("bad request kind {k}") }
+    }
+
+    /// The schedule of C12_statelock_release_refuted with the given requests (I = router info,
+    /// L = router list): they are made (1) while the router is idle, (2) while the connection task
+    /// sits inside process_msg - the downstream end of the gate applies back-pressure, so
+    /// `gate.update_data(..).await` does not return -, and (3) the back-pressure ends.
+    /// `idle <status>.. window <status|blocked|PANIC>.. after <status|blocked|PANIC>..`
+    async fn probe(&mut self, kinds: &[&str]) -> String {
+        use std::time::{Duration, Instant};
+        use tokio::io::AsyncWriteExt;
+        let render = crate::engines::bstream::render;
+        let mut idle = vec![];
+        for k in kinds { idle.push(settle(&mut self.get(self.path_of(k)), 3000).await); }
+        self.fx.hold_updates(true);
+        self.tx.as_mut().unwrap().write_all(&render("R.0.0.1.1+2.0.-")).await.unwrap();
+        let t0 = Instant::now();
+        while self.fx.parked() == 0 {
+            if t0.elapsed() > Duration::from_secs(3) { self.fx.hold_updates(false); return "broken the route monitoring message never reached the gate".into(); }
+            tokio::time::sleep(Duration::from_millis(1)).await;
+        }
+        let mut hs: Vec<_> = vec![];
+        for k in kinds { hs.push(self.get(self.path_of(k))); tokio::time::sleep(Duration::from_millis(2)).await; }
+        tokio::time::sleep(Duration::from_millis(120)).await;
+        let mut window = vec![];
+        for h in hs.iter_mut() { window.push(if h.is_finished() { settle(h, 1000).await } else { "blocked".to_string() }); }
+        self.fx.hold_updates(false);
+        let mut after = vec![];
+        for (h, w) in hs.iter_mut().zip(window.iter()) { after.push(if w == "blocked" { settle(h, 3000).await } else { w.clone() }); }
+        format!("idle {} window {} after {}", idle.join(" "), window.join(" "), after.join(" "))
+    }
+
+    async fn finish(&mut self) -> &'static str {
+        drop(self.tx.take());
+        let ended = tokio::time::timeout(std::time::Duration::from_secs(5), self.conn.take().unwrap()).await;
+        self.fx.terminate().await;
+        match ended { Ok(Ok(())) => "ended", Ok(Err(_)) => "PANICKED", Err(_) => "still-running" }
+    }
+}
+
+/// Engine c12lock (line protocol; same grammar as oracle/eng_c12lock.ml): a case is a sequence of
+/// request kinds `I` / `L`; the observation is that of `Scenario::probe`.
+pub fn probe_case(line: &str) -> String {
+    let kinds: Vec<&str> = line.split_whitespace().collect();
+    let rt = tokio::runtime::Builder::new_multi_thread().worker_threads(3).enable_all().build().unwrap();
+    let out = rt.block_on(async {
+        let mut sc = match Scenario::new().await { Ok(s) => s, Err(e) => return e };
+        let obs = sc.probe(&kinds).await;
+        let end = sc.finish().await;
+        if end == "ended" { obs } else { format!("{obs} connection-{end}") }
+    });
+    rt.shutdown_background();
+    out
+}
+
+/// c12-statelock <hammer-ms> <seed>: for <hammer-ms> the router sends messages back to back (statistics
+/// reports, initiations, announcements, withdrawals) while four clients request the router list and the
+/// info page (by ingress id, by address) as fast as they are answered; every request must get its 200 and
+/// neither a handler nor the connection task may panic.
 fn statelock(args: &[String]) {
-    use rotonda::verif::bmp_stream::StreamFixture;
     use std::sync::atomic::{AtomicBool, AtomicUsize, Ordering::SeqCst};
     use std::time::{Duration, Instant};
     use tokio::io::AsyncWriteExt;
@@ -314,62 +412,10 @@ fn statelock(args: &[String]) {
     let render = crate::engines::bstream::render;
     let rt = tokio::runtime::Builder::new_multi_thread().worker_threads(4).enable_all().build().unwrap();
     let verdict = rt.block_on(async move {
-        let fx = Arc::new(StreamFixture::new("198.51.100.1:11019".parse().unwrap()).await);
-        let manager = rotonda::manager::Manager::new();
-        let resources: Resources = manager.http_resources();
-        let (list, info) = fx.http_processors(resources.clone(), "/routers/");
-        resources.register(Arc::downgrade(&list), "verif".into(), "bmp-tcp-in", "/routers/", false);
-        resources.register(Arc::downgrade(&info), "verif".into(), "bmp-tcp-in", "/routers/", true);
-        let metrics = Arc::new(rotonda::metrics::Collection::default());
-        let (res0, met0) = (resources.clone(), metrics.clone());
-        let get = move |path: String| -> tokio::task::JoinHandle<u16> {
-            let (resources, metrics) = (res0.clone(), met0.clone());
-            tokio::spawn(async move {
-                let req = Request::builder().method("GET").uri(path).body(Body::empty()).unwrap();
-                let res = Server::verif_handle_request(req, &metrics, &resources).await;
-                let status = res.status().as_u16();
-                let _ = hyper::body::to_bytes(res.into_body()).await;
-                status
-            })
-        };
-        let (mut tx, rx) = tokio::io::duplex(1 << 16);
-        let conn = { let fx = fx.clone(); tokio::spawn(async move { fx.run(rx).await }) };
-        let info_path = format!("/routers/{}", fx.router_id);
-        let addr_path = "/routers/198.51.100.1".to_string();
-
-        // ---- probe
-        tx.write_all(&render("I")).await.unwrap();
-        tx.write_all(&render("U.0.1")).await.unwrap();
-        let t0 = Instant::now();
-        while fx.phase().await != 1 {
-            if t0.elapsed() > Duration::from_secs(3) { return "broken the router did not reach the dumping phase".to_string(); }
-            tokio::time::sleep(Duration::from_millis(1)).await;
-        }
-        let idle = format!("{},{}", settle(&mut get(info_path.clone()), 3000).await, settle(&mut get("/routers/".into()), 3000).await);
-        fx.hold_updates(true);
-        tx.write_all(&render("R.0.0.1.1+2.0.-")).await.unwrap();
-        let t0 = Instant::now();
-        while fx.parked() == 0 {
-            if t0.elapsed() > Duration::from_secs(3) { return "broken the route monitoring message never reached the gate".to_string(); }
-            tokio::time::sleep(Duration::from_millis(1)).await;
-        }
-        let (mut hi, mut hl) = (get(info_path.clone()), get("/routers/".into()));
-        let window = format!("{},{}", settle(&mut hi, 150).await, settle(&mut hl, 50).await);
-        fx.hold_updates(false);
-        let w: Vec<&str> = window.split(',').collect();
-        let a_info = if w[0] == "blocked" { settle(&mut hi, 3000).await } else { w[0].to_string() };
-        let a_list = if w[1] == "blocked" { settle(&mut hl, 3000).await } else { w[1].to_string() };
-        let after = format!("{a_info},{a_list}");
-        let probe = format!("idle:{idle} window:{window} after:{after}");
-        let ok_tok = |t: &str| t == "200";
-        let probe_ok = idle == "200,200" && after == "200,200" && w.iter().all(|t| *t == "blocked" || ok_tok(t));
-        let probe_fail = if probe_ok { None } else {
-            Some(format!("probe {probe}: a request made while the router's message is being processed must wait or be answered 200, and be answered 200 afterwards"))
-        };
-
-        // ---- hammer
+        let mut sc = match Scenario::new().await { Ok(s) => s, Err(e) => return e };
         let stop = Arc::new(AtomicBool::new(false));
         let sent = Arc::new(AtomicUsize::new(0));
+        let mut tx = sc.tx.take().unwrap();
         let writer = {
             let (stop, sent) = (stop.clone(), sent.clone());
             let msgs: Vec<bytes::Bytes> = ["S.0", "I", "R.0.0.2.3.0.-", "S.0", "I", "S.0", "R.0.0.2.-.0.3", "I"].iter().map(|d| render(d)).collect();
@@ -381,20 +427,28 @@ fn statelock(args: &[String]) {
                     sent.store(k, SeqCst);
                     if k % 64 == 0 { tokio::task::yield_now().await; }
                 }
-                tx   // dropped by the caller: end of stream
+                tx   // handed back: dropping it is the end of the stream
             })
         };
         let deadline = Instant::now() + Duration::from_millis(hammer_ms);
         let mut clients = vec![];
         for c in 0..4u64 {
             let mut rng = Sm(seed.wrapping_mul(7919).wrapping_add(c));
-            let paths = [info_path.clone(), "/routers/".to_string(), addr_path.clone(), "/routers/?sort_by=state".to_string(), info_path.clone()];
-            let get = get.clone();
+            let paths = [sc.info_path.clone(), "/routers/".to_string(), "/routers/198.51.100.1".to_string(), "/routers/?sort_by=state".to_string(), sc.info_path.clone()];
+            let (resources, metrics) = (sc.resources.clone(), sc.metrics.clone());
             clients.push(tokio::spawn(async move {
                 let mut n = 0usize;
                 while Instant::now() < deadline {
                     let p = paths[rng.below(paths.len() as u64) as usize].clone();
-                    let out = settle(&mut get(p.clone()), 5000).await;
+                    let (resources, metrics, uri) = (resources.clone(), metrics.clone(), p.clone());
+                    let mut h = tokio::spawn(async move {
+                        let req = Request::builder().method("GET").uri(uri).body(Body::empty()).unwrap();
+                        let res = Server::verif_handle_request(req, &metrics, &resources).await;
+                        let status = res.status().as_u16();
+                        let _ = hyper::body::to_bytes(res.into_body()).await;
+                        status
+                    });
+                    let out = settle(&mut h, 5000).await;
                     n += 1;
                     if out != "200" { return Err(format!("GET {p} -> {out} (request {n} of client {c})")); }
                 }
@@ -407,18 +461,13 @@ fn statelock(args: &[String]) {
             match c.await { Ok(Ok(n)) => requests += n, Ok(Err(e)) => { failure.get_or_insert(e); } Err(_) => { failure.get_or_insert("a client task died".into()); } }
         }
         stop.store(true, SeqCst);
-        let tx = writer.await;
-        drop(tx);
-        let ended = tokio::time::timeout(Duration::from_secs(5), conn).await;
-        let conn_txt = match ended { Ok(Ok(())) => "ended", Ok(Err(_)) => "PANICKED", Err(_) => "still-running" };
-        fx.terminate().await;
+        sc.tx = writer.await.ok();
+        let conn_txt = sc.finish().await;
         let msgs = sent.load(SeqCst);
-        drop(manager);
         if failure.is_none() && conn_txt == "PANICKED" { failure = Some("the connection task panicked".into()); }
-        match (probe_fail, failure) {
-            (None, None) => format!("ok probe {probe} hammer requests={requests} messages={msgs} connection={conn_txt}"),
-            (p, h) => format!("FAIL {}{}{} (hammer: messages={msgs} answered={requests})", p.clone().unwrap_or_default(),
-                              if p.is_some() && h.is_some() { "; " } else { "" }, h.map(|f| format!("hammer {f}")).unwrap_or_default()),
+        match failure {
+            None => format!("ok hammer requests={requests} messages={msgs} connection={conn_txt}"),
+            Some(f) => format!("FAIL hammer {f} (messages={msgs} answered={requests})"),
         }
     });
     println!("{verdict}");
